@@ -18,16 +18,25 @@
 (* The output under construction is a sequence of slices; a slice belongs  *)
 (* to an input (owner > 0) or is glue printed by the linker itself (owner  *)
 (* 0: import statements, runtime, file comments); a slice is a sequence of *)
-(* tokens: data of n bytes, or a key standing for a path of final length   *)
-(* L.  Bytes are modelled one by one (Flatten) so that "the length after   *)
-(* substitution" is computed by really concatenating, independently of the *)
-(* accounting rule it is compared with.                                    *)
+(* tokens: data of n bytes, or a key.  A key has a KIND - it stands for    *)
+(* the path of an emitted asset (outputPieceAssetIndex: the number is the   *)
+(* source index of the file-loader input) or of another chunk              *)
+(* (outputPieceChunkIndex: the number is the chunk index) - and the two    *)
+(* kinds number their referents independently: asset 2 and chunk 2 are     *)
+(* different files with different final paths.  The final path lengths     *)
+(* (alen, clen) are chosen arbitrarily per referent; one output may hold   *)
+(* several keys of both kinds with equal numbers.  Bytes are modelled one  *)
+(* by one (Flatten) so that "the length after substitution" is computed by *)
+(* really concatenating, independently of the accounting rule it is        *)
+(* compared with.                                                          *)
 (***************************************************************************)
 EXTENDS Integers, Sequences, FiniteSets, TLC
 
 CONSTANTS KeyLen,      \* length of a unique key
           DataLens,    \* lengths of data pieces
           PathLens,    \* lengths of final (relative or public) paths
+          AssetIdx,    \* numbers of the referenced assets (source indices)
+          ChunkIdx,    \* numbers of the referenced chunks (chunk indices)
           MaxKeys,     \* placeholders per output
           MaxToks,     \* tokens per slice
           MaxSlices,   \* slices per output
@@ -35,18 +44,23 @@ CONSTANTS KeyLen,      \* length of a unique key
           TrailerLens  \* lengths of the link comments appended after substitution
 
 VARIABLES slices,  \* sequence of [owner, toks]
-          trailer  \* bytes appended after substitution (legal link + sourceMappingURL)
-vars == <<slices, trailer>>
+          trailer, \* bytes appended after substitution (legal link + sourceMappingURL)
+          alen,    \* final path length of every asset
+          clen     \* final path length of every chunk
+vars == <<slices, trailer, alen, clen>>
 
 Data(n) == [t |-> "data", n |-> n]
-Key(l) == [t |-> "key", n |-> l]
+Key(k, x) == [t |-> k, n |-> x]   \* k: "asset" | "chunk"; x: the number of the referent within its kind
+
+\* the length of the path a key is replaced by (substituteFinalPaths)
+PathLen(tok, al, cl) == IF tok.t = "asset" THEN al[tok.n] ELSE cl[tok.n]
 
 RECURSIVE Cells(_, _)
 Cells(n, x) == IF n = 0 THEN <<>> ELSE <<x>> \o Cells(n - 1, x)
 
 \* the real bytes of a token before / after substitution, tagged with the owner
 InterTok(o, tok) == IF tok.t = "data" THEN Cells(tok.n, o) ELSE Cells(KeyLen, o)
-FinalTok(o, tok) == Cells(tok.n, o)   \* data: n bytes; key: the final path of length n
+FinalTok(o, tok) == IF tok.t = "data" THEN Cells(tok.n, o) ELSE Cells(PathLen(tok, alen, clen), o)
 
 RECURSIVE FlattenToks(_, _, _)
 FlattenToks(o, toks, final) ==
@@ -58,60 +72,84 @@ Flatten(ss, final) == IF ss = <<>> THEN <<>> ELSE FlattenToks(Head(ss).owner, He
 \* what is written to disk
 FinalBytes == Flatten(slices, TRUE) \o Cells(trailer, 0)
 
-\* accurateFinalByteCount of one slice: data lengths + final path lengths
-RECURSIVE Accurate(_)
-Accurate(toks) == IF toks = <<>> THEN 0 ELSE Head(toks).n + Accurate(Tail(toks))
-\* the tempting wrong rule: the length of the slice as printed (keys not yet substituted)
+\* accurateFinalByteCount of one slice: data lengths + the final path length of
+\* every key, looked up by kind AND number
+RECURSIVE Accurate(_, _, _)
+Accurate(toks, al, cl) ==
+  IF toks = <<>> THEN 0
+  ELSE (IF Head(toks).t = "data" THEN Head(toks).n ELSE PathLen(Head(toks), al, cl)) + Accurate(Tail(toks), al, cl)
+\* a tempting wrong rule: the length of the slice as printed (keys not yet substituted)
 RECURSIVE Naive(_)
 Naive(toks) == IF toks = <<>> THEN 0 ELSE (IF Head(toks).t = "data" THEN Head(toks).n ELSE KeyLen) + Naive(Tail(toks))
+\* another one: path lengths remembered per NUMBER only (memo: number -> length,
+\* 0 = not yet seen), so that asset x and chunk x share one entry
+RECURSIVE ByNumberOnly(_, _, _, _)
+ByNumberOnly(toks, memo, al, cl) ==
+  IF toks = <<>> THEN 0
+  ELSE LET tok == Head(toks) IN
+       IF tok.t = "data" THEN tok.n + ByNumberOnly(Tail(toks), memo, al, cl)
+       ELSE LET l == IF memo[tok.n] # 0 THEN memo[tok.n] ELSE PathLen(tok, al, cl)
+            IN l + ByNumberOnly(Tail(toks), [memo EXCEPT ![tok.n] = l], al, cl)
 
-RECURSIVE SumOwner(_, _, _)
-SumOwner(ss, i, naive) ==
+RECURSIVE SumOwner(_, _)
+SumOwner(ss, i) ==
   IF ss = <<>> THEN 0
-  ELSE (IF Head(ss).owner = i THEN (IF naive THEN Naive(Head(ss).toks) ELSE Accurate(Head(ss).toks)) ELSE 0) + SumOwner(Tail(ss), i, naive)
+  ELSE (IF Head(ss).owner = i THEN Accurate(Head(ss).toks, alen, clen) ELSE 0) + SumOwner(Tail(ss), i)
 
 \* the metafile entry of the output
-BytesInOutput(i) == SumOwner(slices, i, FALSE)
+BytesInOutput(i) == SumOwner(slices, i)
 MetaBytes == Len(FinalBytes)
 
 RECURSIVE SumAll(_)
 SumAll(S) == IF S = {} THEN 0 ELSE LET i == CHOOSE x \in S : TRUE IN BytesInOutput(i) + SumAll(S \ {i})
 
-NumKeysIn(toks) == Cardinality({k \in 1..Len(toks) : toks[k].t = "key"})
+NumKeysIn(toks) == Cardinality({k \in 1..Len(toks) : toks[k].t # "data"})
 RECURSIVE NumKeys(_)
 NumKeys(ss) == IF ss = <<>> THEN 0 ELSE NumKeysIn(Head(ss).toks) + NumKeys(Tail(ss))
 
-Init == slices = <<>> /\ trailer = 0
+Init == /\ slices = <<>> /\ trailer = 0
+        /\ alen \in [AssetIdx -> PathLens]
+        /\ clen \in [ChunkIdx -> PathLens]
 NewSlice(o) == /\ Len(slices) < MaxSlices
                /\ slices' = Append(slices, [owner |-> o, toks |-> <<>>])
-               /\ UNCHANGED trailer
+               /\ UNCHANGED <<trailer, alen, clen>>
 AddTok(tok) == /\ slices # <<>>
                /\ trailer = 0
                /\ Len(slices[Len(slices)].toks) < MaxToks
-               /\ (tok.t = "key" => NumKeys(slices) < MaxKeys)
+               /\ (tok.t # "data" => NumKeys(slices) < MaxKeys)
                /\ slices' = [slices EXCEPT ![Len(slices)].toks = Append(@, tok)]
-               /\ UNCHANGED trailer
-AddTrailer(n) == trailer = 0 /\ n > 0 /\ trailer' = n /\ UNCHANGED slices
+               /\ UNCHANGED <<trailer, alen, clen>>
+AddTrailer(n) == trailer = 0 /\ n > 0 /\ trailer' = n /\ UNCHANGED <<slices, alen, clen>>
 Next == \/ \E o \in Inputs \cup {0} : trailer = 0 /\ NewSlice(o)
         \/ \E n \in DataLens : AddTok(Data(n))
-        \/ \E l \in PathLens : AddTok(Key(l))
+        \/ \E x \in AssetIdx : AddTok(Key("asset", x))
+        \/ \E x \in ChunkIdx : AddTok(Key("chunk", x))
         \/ \E n \in TrailerLens : AddTrailer(n)
 Spec == Init /\ [][Next]_vars
 
 (***************************************************************************)
 (* Properties                                                              *)
 (***************************************************************************)
-\* the accounting rule equals the length after substitution
-BytesExact == MetaBytes = SumOwner(slices, 0, FALSE) + SumAll(Inputs) + trailer
+\* the accounting rule equals the length after substitution: what is attributed
+\* to the inputs + the glue (owner 0, by the same rule) + the trailer is the file
+BytesExact == MetaBytes = SumOwner(slices, 0) + SumAll(Inputs) + trailer
 \* the bytes attributed to an input are exactly the bytes of the final file that it owns
 ContributionExact == \A i \in Inputs : BytesInOutput(i) = Cardinality({k \in 1..Len(FinalBytes) : FinalBytes[k] = i})
 ContributionsBounded == SumAll(Inputs) <= MetaBytes
 \* an input without a slice contributes nothing
 ShakenContributeZero == \A i \in Inputs : (\A k \in 1..Len(slices) : slices[k].owner # i) => BytesInOutput(i) = 0
 
-\* the wrong rule (counting before substitution) differs from the truth as
-\* soon as one path has another length than the key: the specification tells
-\* the two apart (checked as an assumption on the constants, see the cfg)
-NaiveIsWrongFor(l) == Naive(<<Key(l)>>) # Accurate(<<Key(l)>>)
+\* the wrong rules differ from the truth on outputs of this model, i.e. the
+\* specification tells them apart (checked on the constants, see the cfg):
+\* counting before substitution, as soon as one path has another length than
+\* the key; remembering lengths per number only, as soon as an asset and a
+\* chunk with the same number have paths of different lengths in one output
+NaiveIsWrongFor(l) == Naive(<<Key("asset", 1)>>) # Accurate(<<Key("asset", 1)>>, [x \in {1} |-> l], [x \in {1} |-> l])
 ASSUME \E l \in PathLens : NaiveIsWrongFor(l)
+ASSUME MaxKeys >= 2 /\ AssetIdx \cap ChunkIdx # {} /\
+       \E x \in AssetIdx \cap ChunkIdx : \E la, lc \in PathLens :
+          LET al == [y \in AssetIdx |-> la]
+              cl == [y \in ChunkIdx |-> lc]
+              toks == <<Key("asset", x), Key("chunk", x)>>
+          IN ByNumberOnly(toks, [y \in AssetIdx \cup ChunkIdx |-> 0], al, cl) # Accurate(toks, al, cl)
 =============================================================================
